@@ -5,25 +5,17 @@ import (
 	"os"
 	"os/exec"
 	"runtime"
-	"sort"
 	"sync"
 	"sync/atomic"
 )
 
-// Registry of checks: property id -> Run.
-var registry = map[string]func(*Ctx){}
-
-func Register(id string, run func(*Ctx)) { registry[id] = run }
-
-func Lookup(id string) func(*Ctx) { return registry[id] }
-
-func Registered() []string {
-	var ids []string
-	for k := range registry {
-		ids = append(ids, k)
-	}
-	sort.Strings(ids)
-	return ids
+// Main is the entry point of every per-property binary (cmd/cNN): parse the command line, run
+// the check, write evidence, exit with the verdict.
+func Main(id string, run func(*Ctx)) {
+	c := New(id)
+	c.ParseArgs(os.Args[1:])
+	run(c)
+	c.Finish()
 }
 
 // Rand is a small deterministic PRNG (splitmix64); every case list is a pure function of
